@@ -82,6 +82,10 @@ func genIndex(rng *rand.Rand, sha256 bool) desync.Index {
 		n = rng.Intn(60)
 	}
 	max := uint64(1 + rng.Intn(1<<uint(4+rng.Intn(16))))
+	if rng.Intn(10) == 0 {
+		// a declared maximum so large that "size > max" can never trip, not even through unsigned wrap-around
+		max = []uint64{1<<64 - 1, 1<<64 - 2, 1 << 63, 1<<63 + 12345}[rng.Intn(4)]
+	}
 	min := max / 4
 	flags := uint64(desync.CaFormatExcludeNoDump)
 	if rng.Intn(3) == 0 {
@@ -96,8 +100,12 @@ func genIndex(rng *rand.Rand, sha256 bool) desync.Index {
 	idx := desync.Index{Index: desync.FormatIndex{FeatureFlags: flags, ChunkSizeMin: min, ChunkSizeAvg: (min + max) / 2, ChunkSizeMax: max}}
 	var start uint64
 	for i := 0; i < n; i++ {
-		size := uint64(1 + rng.Int63n(int64(max)))
-		if rng.Intn(6) == 0 {
+		bound := max
+		if bound > 1<<40 {
+			bound = 1 << 40
+		}
+		size := uint64(1 + rng.Int63n(int64(bound)))
+		if rng.Intn(6) == 0 && max < 1<<40 {
 			size = max
 		}
 		if i > 0 && rng.Intn(12) == 0 {
@@ -413,7 +421,11 @@ func concurrentLeg(c *harness.Ctx, rng *rand.Rand, sha256 bool) {
 	base.Chunks = nil
 	var start uint64
 	for i := 0; i < n; i++ {
-		size := uint64(1 + rng.Int63n(int64(base.Index.ChunkSizeMax)))
+		bound := base.Index.ChunkSizeMax
+		if bound > 1<<40 {
+			bound = 1 << 40
+		}
+		size := uint64(1 + rng.Int63n(int64(bound)))
 		base.Chunks = append(base.Chunks, desync.IndexChunk{Start: start, Size: size})
 		start += size
 	}
@@ -516,9 +528,9 @@ func corruptLeg(c *harness.Ctx, rng *rand.Rand, idx desync.Index, raw []byte, sh
 	n := len(idx.Chunks)
 	kinds := []string{"flag", "hdr-size", "hdr-type", "tbl-size", "tbl-type", "zero2", "tail-offset", "tail-size", "tail-marker"}
 	if n >= 2 {
-		kinds = append(kinds, "decrease-last", "decrease-middle", "decrease-last", "too-large", "equal")
+		kinds = append(kinds, "decrease-last", "decrease-middle", "decrease-last", "equal")
 	}
-	if n == 1 {
+	if n >= 1 && idx.Index.ChunkSizeMax < 1<<62 { // above that no offset can express a chunk larger than the maximum
 		kinds = append(kinds, "too-large")
 	}
 	kind := kinds[rng.Intn(len(kinds))]
